@@ -287,7 +287,7 @@ func c17Run(c *engine.Ctx) {
 			for _, size := range sizes {
 				for _, pre := range []int{0, 1, 2, 3} {
 					idx++
-					if c.Expired() {
+					if c.Expired() || quick && size >= 40000 && pre >= 2 {
 						continue
 					}
 					// preceding valid documents whose total size moves the window reset around
